@@ -8,7 +8,8 @@ SHARDS = 16
 RULE = ("D cases: one burst of 1-20 calls over a fresh in-process p2p pair (methods taking &self / &mut self on interfaces with "
         "spawning on and off, Properties.Get / GetAll / Set with &mut and &self setters, Introspect) whose handlers — method handlers, "
         "property getters, property setters — yield, sleep, emit signals and call object_server().at / remove (another path, own path) "
-        "and .interface(); a watchdog of 8 s (handlers need milliseconds), a hang is re-run once in a fresh pair before it is believed. "
+        "and .interface(), or remove the very interface they are running on (from &mut self and &self handlers, with and without a "
+        "&mut call queued behind them); a watchdog of 8 s (handlers need milliseconds), a hang is re-run once in a fresh pair before it is believed. "
         "Mostly bursts inside the class where freedom from deadlock is proved (there a hang is a VIOLATION): since /repo d9501501 that "
         "includes property getters / setters that register or remove objects and method handlers racing with property traffic. A few "
         "bursts in the remaining known class (a handler that registers while Introspect on the same node is in flight: deterministic "
@@ -97,6 +98,35 @@ def safe_lookup(rng):
     return "D %s -,-,-,- %s" % (rng.choice(["i", "2"]), " ".join(calls))
 
 
+def self_remove(rng):
+    # a handler removes the very interface it runs on (`r2`, a self-removing Close): from a &mut self handler (the dispatcher holds
+    # the interface's write lock), from a &self handler with and without a &mut call queued behind it; also "remove another
+    # interface at my own path" (a1 .. r1).  Only method calls; nothing else looks interface k up (no Properties / Introspect /
+    # interface() on k), later method calls to k either run or are answered UnknownInterface.
+    k = rng.randint(0, 3)
+    others = [j for j in range(4) if j != k]
+    pre = []
+    for _ in range(rng.choice([0, 0, 1, 2, 4])):
+        j = k if rng.random() < 0.5 else rng.choice(others)
+        pre.append("%s%d:%s" % (rng.choice("mf"), j, script(rng, AWAITS + ["a1", "r1", "a0", "r0"], 0, 3)))
+    v = rng.randint(0, 4)
+    if v == 0:
+        core = ["m%d:%s" % (k, ".".join([rng.choice(AWAITS) for _ in range(rng.randint(0, 2))] + ["r2"]))]
+    elif v == 1:
+        core = ["f%d:z30.r2" % k, "m%d:%s" % (k, script(rng, AWAITS, 0, 1))]          # a writer queues up behind the reader
+    elif v == 2:
+        core = ["f%d:%s" % (k, ".".join([rng.choice(AWAITS) for _ in range(rng.randint(0, 2))] + ["r2"]))]
+    elif v == 3:
+        core = ["m%d:a1.%s.r1.r2" % (k, rng.choice(AWAITS))]                            # another interface at my path, then myself
+    else:
+        core = ["m%d:z20.r2" % k, "f%d:-" % k, "m%d:y1" % k]                             # readers and writers queued behind the closer
+    post = []
+    for _ in range(rng.choice([0, 1, 2, 3])):
+        j = rng.choice(others) if rng.random() < 0.8 else k
+        post.append("%s%d:%s" % (rng.choice("mf"), j, script(rng, AWAITS + ["a0", "r0", "a1"], 0, 2)))
+    return "D %s -,-,-,- %s" % (rng.choice(["i", "i", "2", "3"]), " ".join(pre + core + post))
+
+
 def known_deterministic(rng):
     # a handler holds its interface lock, sleeps, registers; Introspect on the same node in between
     k = rng.randint(0, 3)
@@ -122,8 +152,10 @@ def known_rare(rng):
 def gen_case(rng, tier, allow_hang):
     """returns (case, expected_to_hang)"""
     r = rng.random()
-    if r < 0.20:
+    if r < 0.12:
         return safe_methods(rng), False
+    if r < 0.24:
+        return self_remove(rng), False
     if r < 0.50:
         return handlers(rng), False
     if r < 0.68:
